@@ -67,6 +67,11 @@ func c19Cases(seed uint64, tier string) []core.Case {
 		out = append(out, core.MkCase(fmt.Sprintf("C19-inbound-%02d", i), c19Spec{Seed: rng.Uint64(), Mode: "inbound", N: 40}))
 		out = append(out, core.MkCase(fmt.Sprintf("C19-outbound-fixture-%02d", i), c19Spec{Seed: rng.Uint64(), Mode: "outbound-fixture", N: 10}))
 		out = append(out, core.MkCase(fmt.Sprintf("C19-outbound-natural-%02d", i), c19Spec{Seed: rng.Uint64(), Mode: "outbound-natural", N: 6}))
+		if i%4 == 0 {
+			// many channels: transfers in flight on channels whose ids are decimal prefixes of one another
+			// (channel-1 / channel-11) with sequences that read the same when glued to the id (1|12, 11|2)
+			out = append(out, core.MkCase(fmt.Sprintf("C19-outbound-fixture-prefix-channels-%02d", i), c19Spec{Seed: rng.Uint64(), Mode: "outbound-fixture-prefix", N: 14}))
+		}
 	}
 	return out
 }
@@ -89,12 +94,18 @@ type c19World struct {
 	// one-to-one voucher pair
 	atomDenom  string // ibc/... on the receiving end of pair 0
 	atomERC20  common.Address
+	routes     [][2]string // (sending channel, receiving channel) of the outbound workload; default: the pairs
+	plan       []string    // fixed sequence of sending channels (otherwise random)
 	recorder   common.Address
 	reverter   common.Address
 	aliasDenom string
 }
 
-func c19Setup(seed uint64) (*c19World, error) {
+func c19Setup(seed uint64, pairs ...int) (*c19World, error) {
+	nPairs := 2
+	if len(pairs) > 0 {
+		nPairs = pairs[0]
+	}
 	c := chain.New(chain.Config{Seed: seed, NumVals: 2, NumUsers: 6})
 	w := fix.NewWorld(c)
 	if _, err := w.AddBridge("eth", []sdkmath.Int{chain.FX(10000), chain.FX(10000), chain.FX(10000)}); err != nil {
@@ -106,7 +117,7 @@ func c19Setup(seed uint64) (*c19World, error) {
 		return nil, err
 	}
 	x := &c19World{c: c, w: w, usdt: usdt, remote: c.Users[5], users: c.Users[:4]}
-	if x.loop, err = fix.NewLoop(c, c.Users[4], 2); err != nil {
+	if x.loop, err = fix.NewLoop(c, c.Users[4], nPairs); err != nil {
 		return nil, err
 	}
 	fix.Fund(c, x.remote.Acc(), sdk.NewCoin("atom", sdkmath.NewInt(1_000_000_000)), sdk.NewCoin("usdtx", sdkmath.NewInt(1_000_000_000)), sdk.NewCoin("foreign", sdkmath.NewInt(1_000_000_000)))
@@ -196,12 +207,24 @@ func runC19(cs core.Case, verbose bool) core.CaseResult {
 		res.Inconclusive = err.Error()
 		return res
 	}
-	x, err := c19Setup(spec.Seed)
+	np := 2
+	if spec.Mode == "outbound-fixture-prefix" {
+		np = 6
+	}
+	x, err := c19Setup(spec.Seed, np)
 	if err != nil {
 		res.Inconclusive = "setup: " + err.Error()
 		return res
 	}
 	switch spec.Mode {
+	case "outbound-fixture-prefix":
+		x.routes = [][2]string{{"channel-1", "channel-0"}, {"channel-11", "channel-10"}}
+		x.plan = []string{}
+		for i := 0; i < 12; i++ {
+			x.plan = append(x.plan, "channel-1")
+		}
+		x.plan = append(x.plan, "channel-11", "channel-11")
+		c19Outbound(x, spec, &res, verbose, true)
 	case "inbound":
 		c19Inbound(x, spec, &res, verbose)
 	case "outbound-fixture":
@@ -445,6 +468,12 @@ func c19Outbound(x *c19World, spec c19Spec, res *core.CaseResult, verbose bool, 
 	c := x.c
 	rng := core.Rng(spec.Seed, 20)
 	sfx := ""
+	routes := x.routes
+	if routes == nil {
+		for _, p := range x.loop.Pairs {
+			routes = append(routes, [2]string{p[0], p[1]})
+		}
+	}
 	voucher := func(src string) string {
 		return transfertypes.ParseDenomTrace(fmt.Sprintf("transfer/%s/%s", src, x.usdt.Base)).IBCDenom()
 	}
@@ -453,7 +482,7 @@ func c19Outbound(x *c19World, spec c19Spec, res *core.CaseResult, verbose bool, 
 		// seed what a working inbound alias conversion would have left: for each sending channel a denom
 		// trace and an alias registration for the voucher of the remote chain's coin, voucher liquidity in
 		// the transfer module account, and on the remote end the escrowed original coins
-		for _, p := range x.loop.Pairs {
+		for _, p := range routes {
 			tr := transfertypes.ParseDenomTrace(fmt.Sprintf("transfer/%s/%s", p[0], x.usdt.Base))
 			c.App.IBCTransferKeeper.SetDenomTrace(c.Ctx, tr)
 			if r := c.Msg(&erc20types.MsgUpdateDenomAlias{Authority: chain.GovAuthority(), Denom: x.usdt.Base, Alias: tr.IBCDenom()}); !r.OK() {
@@ -481,7 +510,7 @@ func c19Outbound(x *c19World, spec c19Spec, res *core.CaseResult, verbose bool, 
 	} else {
 		// the voucher of FX on the receiving ends is a registered one-to-one coin there, so that hex
 		// receivers can be credited (success acknowledgements)
-		for i, p := range x.loop.Pairs {
+		for i, p := range routes {
 			d := transfertypes.ParseDenomTrace(fmt.Sprintf("transfer/%s/%s", p[1], fxtypes.DefaultDenom)).IBCDenom()
 			md := fxtypes.GetCrossChainMetadataOneToOne(fmt.Sprintf("Remote FX %d", i), d, fmt.Sprintf("RFX%d", i), 18)
 			if r := c.Msg(&erc20types.MsgRegisterCoin{Authority: chain.GovAuthority(), Metadata: md}); !r.OK() {
@@ -514,8 +543,10 @@ func c19Outbound(x *c19World, spec c19Spec, res *core.CaseResult, verbose bool, 
 	}
 	for i := 0; i < spec.N; i++ {
 		u := x.users[rng.IntN(len(x.users))]
-		pair := x.loop.Pairs[rng.IntN(len(x.loop.Pairs))]
-		src := pair[0]
+		src := routes[rng.IntN(len(routes))][0]
+		if i < len(x.plan) {
+			src = x.plan[i]
+		}
 		var chanNum int
 		fmt.Sscanf(src, "channel-%d", &chanNum)
 		// a hex receiver can be credited on the remote end (success), a bech32 one is refused there (error)
